@@ -329,7 +329,7 @@ macro_rules! make_resolve_const_function {
                     .get(&format!("{party}::{identifier}"))
                     .unwrap(),
                 ConstExprEnum::Max(args) => {
-                    let mut result = 0;
+                    let mut result = <$const_ty>::MIN;
                     for arg in args {
                         result = max(result, $fn_ident(arg, consts_unsigned));
                     }
